@@ -482,6 +482,12 @@ func btoi(b bool) int {
 // decorate adds the property's fault / scheduling modifiers to a sync event.
 func (c *genCtx) decorate(e *Ev) {
 	g := c.g
+	if (c.prop == "C05" || c.prop == "C06" || c.prop == "C07" || c.prop == "C13") && e.T == "sync" && g.Chance(1, 5) {
+		// the application goes on working while its Sync() is in flight
+		for k := g.Range(1, 2); k > 0; k-- {
+			e.Body = append(e.Body, c.localEv(e.A))
+		}
+	}
 	switch c.prop {
 	case "C07":
 		if g.Chance(1, 3) {
